@@ -171,3 +171,28 @@ impl Filter for BasicFilter {
         }
     }
 }
+
+#[cfg(feature = "verif")]
+impl BasicFilter {
+    /// Verification hook (feature `verif`): the filter state as bit patterns.
+    /// Read-only.
+    pub fn verif_state(&self) -> std::string::String {
+        use std::format;
+        let last = match &self.last_step {
+            None => "-".into(),
+            Some(l) => format!(
+                "{}:{}:{}",
+                l.event_time.nanos().to_bits(),
+                l.offset.nanos().to_bits(),
+                l.correction.nanos().to_bits()
+            ),
+        };
+        format!(
+            "last={} oc={} fc={:016x} cur={:016x}",
+            last,
+            self.offset_confidence.nanos().to_bits(),
+            self.freq_confidence.to_bits(),
+            self.cur_freq.to_bits()
+        )
+    }
+}
